@@ -629,7 +629,16 @@ pub fn run_write_script(version: u8, max_buf: Option<u32>, script: &[WOp], ctl: 
                     let n = *name as usize % WNAMES.len();
                     Some(guard("set_state_bits", || c.set_state_bits(WNAMES[n], *bits))?)
                 }
-                WOp::CfbFlush => Some(guard("flush", || c.flush())?),
+                WOp::CfbFlush => {
+                    // "Flushes all changes to the underlying file": Ok without a flush call on the
+                    // underlying writer is not a flush (also on the repetition after a failed one)
+                    let f0 = ctl.lock().unwrap().counters.flushes;
+                    let r = guard("flush", || c.flush())?;
+                    if r.is_ok() && ctl.lock().unwrap().counters.flushes == f0 {
+                        return Err(Fail::new("write_fault|flush|inner_flush_not_called", "CompoundFile::flush returned Ok without flushing the underlying writer"));
+                    }
+                    Some(r)
+                }
                 WOp::Walk => {
                     let n = guard("walk", || c.walk().take(20_000).count())?;
                     if n >= 20_000 {
